@@ -204,6 +204,19 @@ Class(x) == LET e == Exotic(x) IN
     ELSE IF "indef" \in e THEN "indef"
     ELSE "canonical"
 
+\* which definite/indefinite container wrappers meet a definite length head wider than needed in this input
+RECURSIVE WideHeads(_, _)
+WideHeads(ty, x) ==
+    CASE ty.c = "mia" ->
+            (IF x.t = "arr" /\ x.w # MinW(Len(x.xs)) THEN {"MaybeIndefArray"} ELSE {})
+            \cup UNION {WideHeads(ty.e, x.xs[i]) : i \in 1..Len(x.xs)}
+      [] ty.c \in {"kvp", "nekvp"} ->
+            (IF x.t = "map" /\ x.w # MinW(Len(x.kv))
+             THEN {IF ty.c = "kvp" THEN "KeyValuePairs" ELSE "NonEmptyKeyValuePairs"} ELSE {})
+            \cup UNION {WideHeads(ty.k, x.kv[i][1]) \cup WideHeads(ty.v, x.kv[i][2]) : i \in 1..Len(x.kv)}
+      [] ty.c = "nullable" -> IF x.t = "simple" THEN {} ELSE WideHeads(ty.e, x)
+      [] OTHER -> {}
+
 \* ------------------------------------------------------------ the laws (checked by MCCborHelpers)
 LawValueRoundTrip(ty, i) == Acc(ty, i) => LET v == Dec(ty, i) IN Acc(ty, Enc(ty, v)) /\ Dec(ty, Enc(ty, v)) = v
 LawPreserve(ty, i)       == (Acc(ty, i) /\ Preserving(ty)) => Enc(ty, Dec(ty, i)) = i
